@@ -419,6 +419,31 @@ def snap(ctx: Ctx) -> None:
             ctx.R.note("SNAP-5: rejection on exhaustion is only implicit (UnboundLocalError)")
         else:
             ctx.R.fail("SNAP-5", mod, loop, "when every attempt was inconsistent the function continues with the last (inconsistent) attempt instead of rejecting it", construct="for-else raise")
+    # SNAP-7 the depth to which a *running* frame's stack is trusted: the depth of the covering handler, and 0 when no
+    # handler covers the position (anything larger reads slots that may hold stale pointers)
+    hd_assigns = [st for st in ast.walk(loop) if isinstance(st, ast.Assign) and norm(st.targets[0]) == "handler_depth"]
+    if hd_assigns:
+        vals = sorted(norm(st.value) for st in hd_assigns)
+        consts = [st for st in hd_assigns if isinstance(st.value, (ast.Constant, ast.UnaryOp))]
+        if any(norm(st.value) != "0" for st in consts):
+            bad = [st for st in consts if norm(st.value) != "0"][0]
+            ctx.R.fail("SNAP-7", mod, bad, f"when no exception-table entry covers the position the trusted stack depth must be 0, the code uses {norm(bad.value)}: slots above the valid stack of a running frame are dereferenced",
+                       construct=f"handler_depth default {norm(bad.value)}")
+        elif not consts:
+            ctx.R.fail("SNAP-7", mod, loop, "handler_depth has no default for positions that no exception-table entry covers", construct="handler_depth default missing")
+        else:
+            ctx.R.ok("SNAP-7", "handler_depth defaults to 0 when no entry covers the position")
+        use = [st for st in ast.walk(tr) if isinstance(st, ast.Assign) and norm(st.targets[0]) == "stack_top_offset" and "handler_depth" in norm(st.value)]
+        if len(use) == 1:
+            if norm(use[0].value) in ("stack_start_offset + wordsize * handler_depth", "stack_start_offset + handler_depth * wordsize", "wordsize * handler_depth + stack_start_offset"):
+                ctx.R.ok("SNAP-7", "running frame: stack_top_offset = stack_start_offset + wordsize * handler_depth")
+            else:
+                ctx.R.fail("SNAP-7", mod, use[0], "for a running frame the trusted stack extent must be stack_start_offset + wordsize * handler_depth", construct=f"stack_top_offset = {norm(use[0].value)}")
+        gsu = [(norm(gx), pol) for gx, pol in guards_of(mod, use[0], fn)] if use else []
+        if use and not any(gx in ("stacktop_copy == -1", "iframe_raw.stacktop == -1") and pol for gx, pol in gsu):
+            ctx.R.undecided("SNAP-7", "the handler-depth trimming is not guarded by `stacktop == -1` in a recognised way")
+    else:
+        ctx.R.undecided("SNAP-7", "handler_depth computation not found in the retry loop")
     # SNAP-6 nothing computed in one attempt is reused by the next: every local that is assigned inside
     # the retry loop must be (re)assigned in each iteration before it is read
     loop_assigned = set()
